@@ -56,6 +56,25 @@ class ValMethod:
         self.recv, self.name = recv, name
 
 
+class PyRecord:
+    """instance of a repo data class kept at meta level (generic containers such as EntityUpdateResult whose
+    declared field types are type variables / protocol types)"""
+
+    def __init__(self, cname, fields):
+        self.cname, self.fields = cname, dict(fields)
+
+    def __repr__(self):
+        return f"<rec {self.cname} {list(self.fields)}>"
+
+    def __getattr__(self, k):
+        if k in ("cname", "fields") or k.startswith("__"):
+            raise AttributeError(k)
+        try:
+            return self.fields[k]
+        except KeyError:
+            raise AttributeError(k)
+
+
 class TypeRef:
     """a builtin/external type used only with isinstance / annotations"""
 
@@ -71,26 +90,61 @@ class Report:
         return f"<report {self.rtype} {list(self.fields) if isinstance(self.fields, dict) else self.fields}>"
 
 
-class St:
-    """path state: path condition + ghost report log"""
-    __slots__ = ("pc", "reports", "havoc")
+_QCACHE = {}
 
-    def __init__(self, pc=(), reports=(), havoc=False):
-        self.pc, self.reports, self.havoc = tuple(pc), tuple(reports), havoc
+
+def has_quant(e):
+    """does the z3 term contain a quantifier (or lambda)?"""
+    k = e.get_id()
+    if k in _QCACHE:
+        return _QCACHE[k][1]
+    seen, stack, res = set(), [e], False
+    while stack:
+        x = stack.pop()
+        i = x.get_id()
+        if i in seen:
+            continue
+        seen.add(i)
+        if z3.is_quantifier(x):
+            res = True
+            break
+        stack.extend(x.children())
+    _QCACHE[k] = (e, res)      # keep the term alive: z3 reuses ids of collected ASTs
+    return res
+
+
+class St:
+    """path state: quantifier-free path condition, quantified facts (kept out of feasibility queries),
+    ghost report log"""
+    __slots__ = ("pc", "qpc", "reports", "havoc")
+
+    def __init__(self, pc=(), reports=(), havoc=False, qpc=()):
+        self.pc, self.qpc, self.reports, self.havoc = tuple(pc), tuple(qpc), tuple(reports), havoc
 
     def assume(self, *conds):
-        add = []
+        add, qadd = [], []
         for c in conds:
             if isinstance(c, bool):
                 if c:
                     continue
                 add.append(z3.BoolVal(False))
             else:
-                add.append(z3_bool(c))
-        return St(self.pc + tuple(add), self.reports, self.havoc) if add else self
+                c = z3_bool(c)
+                if z3.is_and(c):
+                    for ch in c.children():
+                        (qadd if has_quant(ch) else add).append(ch)
+                else:
+                    (qadd if has_quant(c) else add).append(c)
+        if not add and not qadd:
+            return self
+        return St(self.pc + tuple(add), self.reports, self.havoc, self.qpc + tuple(qadd))
 
     def report(self, r):
-        return St(self.pc, self.reports + (r,), self.havoc)
+        return St(self.pc, self.reports + (r,), self.havoc, self.qpc)
+
+    @property
+    def hyps(self):
+        return self.pc + self.qpc
 
 
 class Outcome:
@@ -128,6 +182,7 @@ class Exec:
         self.axioms = []              # global assumptions (assumed library / interface contracts)
         self.solver_calls = 0
         self._feas_cache = {}
+        self._ent_cache = {}
         self.depth = 0
         self.cur_key = None
         self.unsupported_notes = []
@@ -144,14 +199,14 @@ class Exec:
     def feasible(self, pc):
         key = tuple(c.get_id() for c in pc)
         if key in self._feas_cache:
-            return self._feas_cache[key]
+            return self._feas_cache[key][1]
         s = z3.Solver()
         s.set("timeout", 3000)
         s.add(*self.base_axioms())
         s.add(*pc)
         self.solver_calls += 1
         r = s.check() != z3.unsat
-        self._feas_cache[key] = r
+        self._feas_cache[key] = (pc, r)    # holds the terms: ids of collected ASTs are reused by z3
         return r
 
     def entails(self, st, cond):
@@ -163,13 +218,25 @@ class Exec:
         for p in st.pc:
             if p.get_id() == cid:
                 return True
+        key = (tuple(x.get_id() for x in st.pc), len(st.qpc), cid)
+        if key in self._ent_cache:
+            return self._ent_cache[key][1]
         s = z3.Solver()
         s.set("timeout", 3000)
         s.add(*self.base_axioms())
         s.add(*st.pc)
         s.add(z3.Not(c))
         self.solver_calls += 1
-        return s.check() == z3.unsat
+        r = s.check() == z3.unsat
+        if not r and st.qpc:
+            from .inst import pointwise_check
+            self.solver_calls += 1
+            try:
+                r = pointwise_check(st.pc, st.qpc, c, self.base_axioms(), 3000) == "unsat"
+            except z3.Z3Exception:
+                r = False
+        self._ent_cache[key] = ((st.pc, c), r)
+        return r
 
     def fork(self, st, cond):
         """yield (bool, st') for the feasible truth values of cond (python bool or z3/Sym bool)"""
@@ -526,6 +593,8 @@ class Exec:
         base_len = len(st_i.pc)
         for kind, val, env3, st3 in self.block(s.body, e2, st_i):
             extra = st3.pc[base_len:]
+            if len(st3.qpc) != len(st_i.qpc):
+                raise PyvcUnsupported("quantified fact inside a symbolic for body")
             if len(st3.reports) != len(st.reports):
                 raise PyvcUnsupported("for over symbolic sequence files reports: needs a loop contract")
             if kind in ("fall", "continue"):
@@ -869,6 +938,21 @@ class Exec:
                 yield Builtin(f"{r.name}.{attr}"), st
         elif isinstance(r, ExcVal):
             yield Opaque("excattr"), st
+        elif isinstance(r, PyRecord):
+            if attr in r.fields:
+                yield r.fields[attr], st
+            elif attr == "_replace":
+                yield ValMethod(r, "_replace"), st
+            else:
+                fn, owner = self.repo.find_method(r.cname, attr)
+                if fn is None:
+                    raise PyvcUnsupported(f"attribute {attr} on record {r.cname}")
+                fv = FuncV(fn, self.repo.classes[owner].path, cls=owner, key=f"{self.repo.classes[owner].path}::{owner}.{attr}")
+                decs = [ast.unparse(d) for d in fn.decorator_list]
+                if "property" in decs:
+                    yield from self.call_value(BoundM(r, fv), [], {}, st, where)
+                else:
+                    yield BoundM(r, fv), st
         elif isinstance(r, Opaque):
             yield Builtin("opaque." + attr), st
         elif isinstance(r, (tuple, list, EmptyColl, PyDict, PySet, str)):
@@ -1166,7 +1250,12 @@ class Exec:
                     return
                 outs = list(self.expr(dflt, {"__module__": self.repo.classes[owner].path}, St()))
                 vals[fn_] = outs[0][0]
-        yield v_construct(self.world, name, vals), st
+        try:
+            yield v_construct(self.world, name, vals), st
+        except PyvcUnsupported:
+            if self.world.union_root(name):
+                raise
+            yield PyRecord(name, vals), st
 
 
 _EXC_CI = {}
